@@ -12,6 +12,8 @@ model of libc's `gmtime_r` / `timegm` / `strftime`).  Instants are whole seconds
                         format × length combinations
 * `c19_rfc822_short_unparseable`  the sixth combination (RFC 822 date-only) is refused, for every
                         instant: the property as written fails there (known finding F8)
+* `c19_format_appends`, `c19_format_capacity`   the formatters append to the output buffer (prefix kept, `len` grows
+                        by the text; refusal leaves it unchanged)
 * `c19_accessors`, `c19_parsed_fields`   accessors = the independent calendar's fields
 * `c19_offsets_iso`, `c19_offsets_rfc822`   numeric offsets and UTC designators in any case
 * `c19_epoch_views`     `as_millis`, `as_nanos`, `init_epoch_millis` (through the generated `aws_timestamp_convert`);
@@ -124,6 +126,27 @@ theorem c19_nanos_plain_add_wraps :
     asMillis { timestamp := 20000000000, millis := 1 } = 20000000000001 ∧
     asNanos { timestamp := 20000000000, millis := 1 } = 18446744073709551615 :=
   Main.c19_nanos_plain_add_wraps
+
+/-- **The formatters append.**  `aws_date_time_to_utc_time[_short]_str` on an output buffer that already
+holds `b.data` (capacity `b.cap`) behaves as the same call on an empty buffer of the remaining space:
+on success the buffer is `b.data ++ text` (prefix preserved, `len` = prefix + text length, capacity
+unchanged); on refusal the documented error and the buffer is not changed. -/
+theorem c19_format_appends (dt : DateTime) (f : Fmt) (short : Bool) (b : Buf) :
+    formatInto dt f short b =
+      match formatUtc dt f short (b.cap - b.data.length) with
+      | .ok t => .ok { data := b.data ++ t, cap := b.cap }
+      | .error e => .error e :=
+  Main.c19_format_appends dt f short b
+
+/-- for an instant of 1970–9999 the appended text is the very text of `c19_roundtrip` (so the appended range
+parses back to the instant); it is appended exactly when text and terminator fit the remaining space,
+otherwise `AWS_ERROR_SHORT_BUFFER` -/
+theorem c19_format_capacity (t : Int) (h0 : 0 ≤ t) (h1 : t ≤ maxInstant) (f : Fmt) (short : Bool) (hf : f ≠ .autoDetect) (b : Buf) :
+    ∃ text, formatUtc (initEpochSecs t 0) f short 100 = .ok text ∧
+      (text.length + 1 ≤ b.cap - b.data.length →
+        formatInto (initEpochSecs t 0) f short b = .ok { data := b.data ++ text, cap := b.cap }) ∧
+      (b.cap - b.data.length < text.length + 1 → formatInto (initEpochSecs t 0) f short b = .error .shortBuffer) :=
+  Main.c19_format_capacity t h0 h1 f short hf b
 
 /-! ### the generated layer (`AwsVerif.Gen.Date`, rewritten from date_time.c on every run) -/
 
